@@ -150,6 +150,10 @@ int main(int argc, char **argv) {
     const char *op = tv[0];
     uint8_t *kb = 0, *vb = 0;
     if (!strcmp(op, "open")) {          // open <path> <wal> <rdonly> <trunc> <notrim>
+      if (kv) { // a script (e.g. a shrunk one) may reopen without closing: never wait for our own file lock
+        closeall();
+        iwkv_close(&kv);
+      }
       snprintf(path, sizeof(path), "%s", tv[1]);
       struct iwkv_opts o = { .path = path, .random_seed = 1,
                              .oflags = (atoi(tv[3]) ? IWKV_RDONLY : 0) | (atoi(tv[4]) ? IWKV_TRUNC : 0)
